@@ -539,11 +539,43 @@ class _AppendLoops(ast.NodeTransformer):
         return node
 
 
+class _CounterAug(ast.NodeTransformer):
+    """x = x + 1 / x = 1 + x / x = x - 1      ->      x += 1 / x -= 1
+    for a name or attribute chain and an integer literal (counters)."""
+
+    def visit_Assign(self, node):
+        self.generic_visit(node)
+        if len(node.targets) != 1 or not isinstance(node.targets[0], (ast.Name, ast.Attribute)):
+            return node
+        v = node.value
+        if not (isinstance(v, ast.BinOp) and isinstance(v.op, (ast.Add, ast.Sub))):
+            return node
+        t = node.targets[0]
+
+        def same(e):
+            return norm_dump(e) == norm_dump(t)
+
+        def lit(e):
+            return isinstance(e, ast.Constant) and isinstance(e.value, int) and not isinstance(e.value, bool)
+        if same(v.left) and lit(v.right):
+            return ast.copy_location(ast.AugAssign(target=t, op=v.op, value=v.right), node)
+        if isinstance(v.op, ast.Add) and same(v.right) and lit(v.left):
+            return ast.copy_location(ast.AugAssign(target=t, op=v.op, value=v.left), node)
+        return node
+
+
+def norm_dump(e: ast.AST) -> str:
+    """structure of an expression without the load / store context"""
+    import re
+    return re.sub(r"ctx=(Load|Store|Del)\(\)", "", ast.dump(e))
+
+
 def canonicalise(tree: ast.Module, aliases: bool = True) -> ast.Module:
     tree = split_conditional_assignments(tree)
     tree = _UnpackIndexed().visit(tree)
     tree = _SplitParallel().visit(tree)
     tree = _AppendLoops().visit(tree)
+    tree = _CounterAug().visit(tree)
     tree = _FuseZipOfMap().visit(tree)
     if aliases:
         for x in ast.walk(tree):
